@@ -1059,12 +1059,17 @@ class Interp:
         short = c.qualname.rsplit(".", 1)[1] + "("
         self._assuming.add(c.qualname)
         try:
+            guard = None
+            if c.ghost_requires:
+                guard = z3.And(*[zbool(lift(self.ev_contract_expr(g, cst, cmod))) for g in c.ghost_requires])
             for ename, e in c.ensures.items():
                 if nested and isinstance(e, str) and short in e:
                     continue  # a mention of f inside f's own postcondition only gets the non-recursive clauses
                 if nested and callable(e):
                     continue
                 val = self.ev_contract_expr(e, cst, cmod)
+                if guard is not None:
+                    val = SV(TBool, z3.Implies(guard, zbool(lift(val))))
                 self.assume(st, val)
         finally:
             if not nested:
@@ -1298,6 +1303,11 @@ class Interp:
             return isinstance(obj, pyt)
         if isinstance(c, ModuleRef):
             c = ClassRef(c.dotted)
+        if callable(c) and not isinstance(c, (ClassRef, PyBuiltin)):
+            for dn, fn in registry.EXTERNALS.items():
+                if fn is c and f"isinstance:{dn}" in registry.EXTERNALS:
+                    c = ClassRef(dn)
+                    break
         if isinstance(c, ClassRef):
             d = c.dotted
             if d in core.ENUMS_BY_DOTTED:
